@@ -14,7 +14,8 @@ VALIDATED = "claimSignature.validated"
 INSIDE = "claimSignature.insideValidity"
 TRUSTED_CODE = "signingCredential.trusted"
 UNTRUSTED = "signingCredential.untrusted"        # "explicitly tolerated credential codes":
-TOL_PREFIX = "cawg.x509."                        # the claim-signature credential and CAWG X.509 credential codes
+TOL_PREFIX = "cawg."                             # ... and every CAWG identity-assertion failure code (the property text names no
+                                                 # prefix; since fix b8b0a0d9a the source tolerates "cawg.", was "cawg.x509.")
 ORDER = {"Invalid": 0, "Valid": 1, "Trusted": 2}
 
 
@@ -176,10 +177,11 @@ def canon_routing(dump):
 
 # ------------------------------------------------------------------ generation
 
-CLASS_REPS = {"V": VALIDATED, "I": INSIDE, "T": TRUSTED_CODE, "U": UNTRUSTED, "C": TOL_PREFIX + "credential.untrusted",
+CLASS_REPS = {"V": VALIDATED, "I": INSIDE, "T": TRUSTED_CODE, "U": UNTRUSTED, "C": TOL_PREFIX + "x509.credential.untrusted",
               "O": "assertion.dataHash.mismatch", "N": "timeStamp.untrusted", "S": "assertion.dataHash.match"}
 CLASSES = "VITUCONS"
-UNKNOWN = ["x.unknown", "cawg.x509.custom", "cawg.x509.", "cawg.x509", "cawg.", "cawg.x50", "Cawg.x509.a", "signingCredential.untrusted ",
+UNKNOWN = ["x.unknown", "cawg.x509.custom", "cawg.x509.", "cawg.x509", "cawg.", "cawg.x50", "Cawg.x509.a", "cawg", "caw.", "cawg-a", "cawgx.a",
+           "cawg.identity.sig_type.unknown", " cawg.a", "signingCredential.untrusted ",
            "signingCredential.untrusteD", "signingCredential.untruste", "", "claimSignature.validated.extra", "ClaimSignature.validated",
            " claimSignature.validated", "cawg.x509.é", "é", "signingCredential.trusted\u0000", "xcawg.x509.a"]
 URIS = [None, None, None, "u1", "u2", "self#jumbf=/c2pa/urn:c2pa:1/c2pa.assertions/c2pa.ingredient.v3", ""]
@@ -224,7 +226,7 @@ def class_family():
         for dl in delta_cfgs:
             out.append({"k": "results", "active": a, "deltas": dl})
     extras = [["assertion.dataHash.mismatch", 2, None], ["general.error", 2, "u1"], ["x.unknown", 2, "u3"],
-              [UNTRUSTED, 2, None], [TOL_PREFIX + "x", 2, "u2"], ["cawg.x50", 2, None]]
+              [UNTRUSTED, 2, None], [TOL_PREFIX + "x", 2, "u2"], ["cawg", 2, None]]
     for n, c in enumerate(out):
         c["ops"] = []
         c["extra"] = extras[n % len(extras)]
@@ -236,7 +238,7 @@ def gen_random(rng, pool, natural):
     def code():
         r = rng.random()
         if r < 0.45:
-            return rng.choice([VALIDATED, INSIDE, TRUSTED_CODE, UNTRUSTED, TOL_PREFIX + rng.choice(["a", "credential.untrusted", ""])])
+            return rng.choice([VALIDATED, INSIDE, TRUSTED_CODE, UNTRUSTED, TOL_PREFIX + rng.choice(["a", "x509.credential.untrusted", "", "ica.x"])])
         if r < 0.8:
             return rng.choice(pool)
         return rng.choice(UNKNOWN)
@@ -527,12 +529,12 @@ def run(ctx):
         cases = [ctx.replay["case"]] if "case" in ctx.replay else [d["case"] for d in ctx.replay.get("disagreements", [])]
         total_class = 0
     else:
-        cases, total_class = build_cases(ctx, 800 if ctx.quick() else 8000, 4000 if ctx.quick() else None, 200 if ctx.quick() else 2000)
+        cases, total_class = build_cases(ctx, 500 if ctx.quick() else 8000, 3000 if ctx.quick() else None, 150 if ctx.quick() else 2000)
         exhaustive = not ctx.quick()
     stats, distinct = evaluate(ctx, cases)
     ctx.coverage.update({
         "evaluations": len(cases), "distinct_nontrivial": distinct,
-        "rule": "corpus + pairwise-complete enumeration over the 8 code classes (validated, insideValidity, trusted, untrusted, cawg.x509.*, "
+        "rule": "corpus + pairwise-complete enumeration over the 8 code classes (validated, insideValidity, trusted, untrusted, cawg.*, "
                 "other failure, informational, other success) placed in the success/informational/failure lists of the active manifest and of "
                 "0-2 ingredient deltas (quick: a seeded sample of it) + seeded random placements/add_status sequences over every known code and "
                 "unknown/near-miss codes + legacy status lists + log_kind of every code; non-trivial = a results object with an active manifest "
